@@ -1,14 +1,49 @@
-import json, os, sys
+"""bin/replay <property> <replay file>
+
+Re-validates a saved trace prefix (the file named in a VIOLATION line) with the trace specification of the
+property: exit 1 and the rejected line if TLC still rejects it, exit 0 if it is accepted. Replay files that are
+lists of TLC-generated vectors the code did not reproduce (vec_*.json) or abort notes (*.abort.json) are
+printed: they are re-run by the check itself (`bin/check <property> quick`)."""
+import json
+import os
+import sys
+
 sys.path.insert(0, os.path.dirname(os.path.abspath(__file__)))
 import vlib
+
 pid, path = sys.argv[1], os.path.abspath(sys.argv[2])
-first = json.loads(open(path).readline())
-kind = first.get("kind", "bdd") if isinstance(first, dict) else "vector"
-spec = {"bdd": ("TraceBdd", "TraceBdd_%s.cfg" % pid), "table": ("TraceTable", "TraceTable.cfg"), "lru": ("TraceLru", "TraceLru.cfg")}.get(kind)
-if spec is None:
-    print("replay files of kind %r are JSON vector lists: re-run `harness/target/debug/rv replay <family> --in <file>`" % kind)
+text = open(path).read()
+try:
+    first = json.loads(text.splitlines()[0])
+except Exception:
+    first = None
+if not isinstance(first, dict) or first.get("ev") != "init":
+    # a list of vectors (expected behaviour printed by TLC + what the code did) or an abort note
+    try:
+        doc = json.loads(text)
+    except Exception:
+        doc = text[:2000]
+    print("not a recorded trace; content (first entry):")
+    print(json.dumps(doc[0] if isinstance(doc, list) and doc else doc, indent=1)[:3000])
+    print("re-run the generating check: bin/check %s quick" % pid)
+    sys.exit(2)
+kind = first.get("kind", "bdd")
+per_prop = {"bdd": "TraceBdd", "sdd": "TraceSdd", "topdown": "TraceTopDown"}
+single = {"table": "TraceTable", "lru": "TraceLru", "sat": "TraceUnitProp", "cnf": "TraceCnf", "orders": "TraceOrders",
+          "semiring": "TraceSemiring", "ser": "TraceSer"}
+if kind in per_prop:
+    module = per_prop[kind]
+    cfg = "%s_%s.cfg" % (module, pid)
+    if not os.path.exists(os.path.join(vlib.SPEC, cfg)):
+        cfg = "%s_All.cfg" % module
+elif kind in single:
+    module = single[kind]
+    cfg = module + ".cfg"
+else:
+    print("unknown trace kind %r" % kind)
     sys.exit(2)
 ctx = vlib.Ctx(pid + "_replay", "quick", 0)
-rej, gen, dist, out = vlib.validate_trace(ctx, spec[0], spec[1], path)
-print("accepted" if rej is None else "rejected at line %d: %s" % (rej[0], open(path).readlines()[rej[0] - 1][:400]))
+rej, gen, dist, out = vlib.validate_trace(ctx, module, cfg, path)
+lines = text.splitlines()
+print("accepted by %s / %s" % (module, cfg) if rej is None else "rejected by %s / %s at line %d: %s" % (module, cfg, rej[0], lines[rej[0] - 1][:400]))
 sys.exit(0 if rej is None else 1)
